@@ -60,6 +60,7 @@ Proof.
   - apply AgreeX_say, AgreeX_on_w; [exact H|]. apply Agree_buf_push, spend_agree, Ha.
   - apply AgreeX_say, AgreeX_on_w; [exact H|]. apply request_agree, spend_agree, Ha.
   - apply AgreeX_say, AgreeX_on_w; [exact H|]. apply request_agree, spend_agree, Ha.
+  - apply AgreeX_say, AgreeX_on_w; [exact H|]. apply (Agree_upd i _ _ (fun x => set_catchf x b) Ha).
 Qed.
 
 Lemma quiet_agree i s s' : AgreeX i s s' -> AgreeX i (quiet i s) (quiet i s').
@@ -76,7 +77,7 @@ Proof.
   induction p as [|a p IH]; intros s s' H; cbn [run_prog fst snd]; [auto|].
   destruct a; try (apply IH, do_act_agree, H).
   - destruct (tk && (0 <? d)); cbn [fst snd]; [auto|apply IH, H].
-  - cbn [fst snd]. split; [apply AgreeX_say, H|reflexivity].
+  - cbn [fst snd]. rewrite (ag_mod _ _ _ (proj1 H)). split; [apply AgreeX_say, H|reflexivity].
   - destruct tk; cbn [fst snd]; [apply IH, H|]. split; [apply quiet_agree, H|reflexivity].
 Qed.
 
@@ -129,7 +130,7 @@ Lemma catch_agree c i p w w' : Agree i w w' ->
 Proof.
   intros H. unfold catch. destruct p; cbn [fst snd]; [|auto].
   pose proof (Agree_upd i w w' (fun x => set_active x false) H) as H1.
-  destruct (c_catch c); cbn [fst snd]; split; try reflexivity; try exact H1. apply Agree_set_err, H1.
+  cbv beta in H1. rewrite (ag_mod _ _ _ H) in H1 |- *. destruct (catchf (w_mod w' i)); cbn [fst snd]; split; try reflexivity; try exact H1. apply Agree_set_err, H1.
 Qed.
 
 Lemma at_sim_start_agree k c now i stage s s' : AgreeX i s s' ->
